@@ -1412,6 +1412,13 @@ where
     #[inline(always)]
     fn skip_number_unsafe(&mut self) -> Result<()> {
         let _ = self.get_next_token([b']', b'}', b','], 0);
+        // the blanks between the number and the next token are not a part of the number
+        while matches!(
+            self.read.at(self.read.index() - 1),
+            b' ' | b'\n' | b'\t' | b'\r'
+        ) {
+            self.read.backward(1);
+        }
         Ok(())
     }
 
